@@ -93,6 +93,8 @@ Lemma setm_driver_hb k m s : driver_hb (setm k m s) = driver_hb s. Proof. st_fie
 Lemma setm_hb_env k m s : hb_env (setm k m s) = hb_env s. Proof. st_fields. Qed.
 Lemma setm_hb_bound k m s : hb_bound (setm k m s) = hb_bound s. Proof. st_fields. Qed.
 
+Lemma setm_ring_full k m s : ring_full (setm k m s) = ring_full s. Proof. st_fields. Qed.
+Lemma getm_set_ring_full k v s : getm k (set_ring_full v s) = getm k s. Proof. st_fields. Qed.
 Lemma getm_set_next_corr k v s : getm k (set_next_corr v s) = getm k s. Proof. st_fields. Qed.
 Lemma getm_set_next_h k v s : getm k (set_next_h v s) = getm k s. Proof. st_fields. Qed.
 Lemma getm_set_orphans k v s : getm k (set_orphans v s) = getm k s. Proof. st_fields. Qed.
@@ -109,7 +111,8 @@ Lemma getm_set_driver_active k v s : getm k (set_driver_active v s) = getm k s. 
 Global Hint Rewrite getm_setm_same setm_orphans setm_next_corr setm_client_id setm_next_h setm_closed
   setm_driver_active setm_close_sent setm_now setm_t_work setm_t_keep setm_t_res setm_driver_hb setm_hb_env setm_hb_bound
   getm_set_next_corr getm_set_next_h getm_set_orphans getm_set_close_sent getm_set_now getm_set_t_work getm_set_t_keep
-  getm_set_t_res getm_set_driver_hb getm_set_hb_env getm_set_hb_bound getm_set_driver_active : st.
+  getm_set_t_res getm_set_driver_hb getm_set_hb_env getm_set_hb_bound getm_set_driver_active
+  setm_ring_full getm_set_ring_full : st.
 
 (* ---- close_all ---- *)
 Lemma close_sub_obj_closed r o : o_closed (fst (close_sub_obj r o)) = true.
@@ -158,3 +161,15 @@ Lemma close_all_scalars s :
 Proof. unfold close_all. destruct (closed s).
   - cbn. repeat split.
   - destruct (close_subs (subs s)), (close_ctrs (ctrs s)). cbn. repeat split. Qed.
+
+Lemma close_all_ring s : ring_full (fst (fst (close_all s))) = ring_full s.
+Proof. unfold close_all. destruct (closed s); [reflexivity|]. destruct (close_subs (subs s)), (close_ctrs (ctrs s)). reflexivity. Qed.
+
+(* ---- set_error ---- *)
+Lemma set_error_obj code e : e_obj (set_error code e) = e_obj e.
+Proof. unfold set_error. destruct (e_status e); reflexivity. Qed.
+Lemma set_error_not_awaiting code e : e_status (set_error code e) <> Awaiting \/ False.
+Proof. left. unfold set_error. destruct (e_status e) eqn:E; cbn; congruence. Qed.
+Lemma set_error_live code e : e_status e <> Dropped ->
+  set_error code e = mkEntry Errored code (e_treg e) (e_a1 e) (e_a2 e) (e_a3 e) (e_d1 e) (e_d2 e) (e_d3 e) (e_d4 e) (e_obj e).
+Proof. unfold set_error. destruct (e_status e); congruence. Qed.
